@@ -1752,6 +1752,13 @@ def m_int_method(opname):
             return [(st, binop({'wrapping_add': 'Add', 'wrapping_sub': 'Sub', 'wrapping_mul': 'Mul'}[opname],
                                 args[0], args[1], ty) if all(is_const(x) for x in args) else
                      ('bin', 'W' + opname[9:].capitalize(), args[0], args[1]))]
+        if opname == 'div_ceil' and len(args) == 2 and ty is not None and ty.startswith('u'):
+            # unsigned: ceil(a / b) = (a + b - 1) / b  (no overflow for the small counters this is used on; a constant divisor is required)
+            a_, b_ = args
+            if is_const(b_) and isinstance(b_[1], int) and b_[1] > 0:
+                if is_const(a_) and isinstance(a_[1], int):
+                    return [(st, C(-(-a_[1] // b_[1])))]
+                return [(st, ('bin', 'Div', ('bin', 'Add', a_, C(b_[1] - 1)), b_))]
         if opname in ('checked_sub', 'saturating_sub') and len(args) == 2 and ty is not None and ty.startswith('u'):
             # unsigned: underflow exactly when a < b; both outcomes are ordinary branches on that comparison
             a_, b_ = args
@@ -2023,6 +2030,7 @@ PATTERN_MODELS = [
     (re.compile(r'^core::num::<impl \w+>::wrapping_add$'), m_int_method('wrapping_add')),
     (re.compile(r'^core::num::<impl \w+>::wrapping_sub$'), m_int_method('wrapping_sub')),
     (re.compile(r'^core::num::<impl \w+>::wrapping_mul$'), m_int_method('wrapping_mul')),
+    (re.compile(r'^core::num::<impl u\w+>::div_ceil$'), m_int_method('div_ceil')),
     (re.compile(r'^core::num::<impl u\w+>::checked_sub$'), m_int_method('checked_sub')),
     (re.compile(r'^core::num::<impl u\w+>::saturating_sub$'), m_int_method('saturating_sub')),
     (re.compile(r'^std::clone::impls::<impl std::clone::Clone for \w+>::clone$'), m_clone),
